@@ -543,6 +543,12 @@ def translate_module(src_path, items, requires=()):
     sigs = {}
     for it in items:
         it = dict(it)
+        if 'symbolic' in it:          # symbolic execution of imperative element kernels (py2coq_sym.py)
+            import py2coq_sym
+            text, sg = py2coq_sym.translate_item(tree, it)
+            out += text
+            sigs.update(sg)
+            continue
         methods = it.pop('methods')
         tr = ClassTr(tree, it.pop('cls', None), it.pop('prefix'), methods=methods, **it)
         for m in methods:
